@@ -48,7 +48,8 @@ assumptions(PROP, [
     "the contract asserted is: either the call rejects the input with TypeError / ValueError / AttributeError (counted per class) "
     "or it returns results equal to those of the float-typed call that satisfy the equation - never a silently different value",
     "domain: |load| in {0} u [1e-3, 4] x R_m (ranges: x 2) with R_m the tensile strength the material set was estimated from, "
-    "1 <= K_p <= 12, tolerances 1e-4 ... 1e-10; stresses handed to the backward functions are images of such loads.  Outside it, "
+    "1 <= K_p <= 12 (Seeger-Beste additionally K_p in {20, 30, 50} in sub-check sb_retry: the only in-property inputs that enter its "
+    "per-element retry of non-converged entries), tolerances 1e-4 ... 1e-10; stresses handed to the backward functions are images of such loads.  Outside it, "
     "observed and not asserted: vectorised ExtendedNeuber.stress returns unconverged iterates (RuntimeWarning only) once |L|/sigma "
     "exceeds ~7 (e.g. |L| = 16 R_m, K_p = 12; inside the domain the ratio stays below 5.1), and Seeger-Beste returns values off by "
     "more than the tolerance for |L| <= 1e-3 MPa (scipy's absolute secant start step of 1e-4 resp. 6e-6 dominates)",
@@ -516,8 +517,9 @@ def _describe(case, ctx, values):
     top = 4.0 * case["Rm"] * (2.0 if case["branch"] == "secondary" else 1.0)
     if not 1.3 <= case["K"] / case["Rm"] <= 3.1:
         ctx.skip("R_m is not the tensile strength this K' was estimated from (K'/R_m outside [1.3, 3.1])")
-    if any(abs(v) > top * (1 + 1e-12) for v in values) or not 1.0 <= case["K_p"] <= 12.0:
-        ctx.skip("load above 4 R_m or K_p outside [1, 12]")
+    kp_max = 50.0 if case["law"] == "SB" else 12.0
+    if any(abs(v) > top * (1 + 1e-12) for v in values) or not 1.0 <= case["K_p"] <= kp_max:
+        ctx.skip("load above 4 R_m or K_p outside [1, 12] (Seeger-Beste: [1, 50])")
     ctx.label("law:" + case["law"], "branch:" + case["branch"], "container:" + case.get("container", "-"),
               "tol:default" if case.get("tol") is None and case.get("rtol") is None else "tol:custom",
               "mat:" + case["mat"].split("/")[0].split(":")[0])
@@ -1252,3 +1254,48 @@ def integer_inputs(case, ctx):
                 raise Violation("%s %s(%s %r): element %r -> %r but the defining equation gives L = %r" % (lawname, fname, kind, values, S, Lp, math.copysign(Ls, S)),
                                 bucket="integer:not_a_root:%s:%s" % (lawname, fname))
     ctx.nontrivial(not gated)
+
+
+# ------------------------------------------------------------------------------------------------
+# sub-check 9: Seeger-Beste per-element retry of entries the vectorised secant left unconverged
+
+@st.composite
+def _retry_cases(draw, tier):
+    case = {"law": "SB"}
+    case.update(draw(st.sampled_from(FKM_POOL)))
+    case["K_p"] = draw(st.sampled_from([20.0, 30.0, 30.0, 50.0, 50.0]))
+    case["branch"] = draw(st.sampled_from(["primary", "secondary"]))
+    case["rtol"], case["tol"] = 1e-10, 1e-10
+    case["container"] = draw(st.sampled_from(["arr", "arr", "series_range"]))
+    n = draw(st.sampled_from([50, 80, 120]))
+    top = draw(st.sampled_from([2.0, 3.0, 4.0])) * case["Rm"] * (2.0 if case["branch"] == "secondary" else 1.0)
+    lo = top / n * draw(st.floats(0.5, 1.0))
+    xs = [lo + (top - lo) * i / (n - 1) for i in range(n)]
+    order = draw(st.sampled_from(["ascending", "descending", "negative"]))
+    if order == "descending":
+        xs = xs[::-1]
+    elif order == "negative":
+        xs = [-x for x in xs]
+    case["loads"] = xs
+    return case
+
+
+@subcheck(PROP, "sb_retry", strategy=_retry_cases, quick=160, thorough=4000,
+          doc="Seeger-Beste, K_p in {20,30,50}, rtol=tol=1e-10, ramps of 50-120 loads: the vectorised secant leaves a few entries unconverged "
+              "which are solved again one by one - every returned value is the root for ITS OWN load (reference root, bounds, sign, monotone)")
+def sb_retry(case, ctx):
+    values, kind = case["loads"], case["container"]
+    fname = _fn(case)
+    _describe(case, ctx, values)
+    law = make_law(case)
+    try:
+        got = call(law, fname, container(kind, values), case["rtol"], case["tol"], ctx)
+    except SolverRaised:
+        ctx.tolerate("RuntimeError: solver failed to converge")
+        return
+    info = check_forward(case, ctx, law, values, got, fname, where="retry")
+    order = sorted(range(len(values)), key=lambda i: values[i])
+    for i, j in zip(order[:-1], order[1:]):
+        if info[i] is not None and info[j] is not None and not got[j] > got[i]:
+            raise Violation("SB %s not increasing: f(%r) = %r, f(%r) = %r" % (fname, values[i], got[i], values[j], got[j]), bucket="retry:monotone")
+    ctx.nontrivial("sb_retry_path" in ctx.labels)
